@@ -108,4 +108,45 @@ def runSteps {P} (step : Running P → Step P → Except String (Running P)) :
     | .error e => .error e
     | .ok r' => runSteps step r' ss
 
+/-- the states after each step (what the model placed next would see) -/
+def runTrace {P} (step : Running P → Step P → Except String (Running P)) :
+    Running P → List (Step P) → Except String (List (Running P))
+  | _, [] => .ok []
+  | r, s :: ss =>
+    match step r s with
+    | .error e => .error e
+    | .ok r' =>
+      match runTrace step r' ss with
+      | .error e => .error e
+      | .ok tr => .ok (r' :: tr)
+
+/-! ## a wrong optimisation (seeded defect C18-2): the loaded detector is cached and its container
+objects are handed to the running detector *by reference*.  From then on everything done in place
+to the running detector — a model's write, the `detector.empty()` before the next readout — is
+done to the cached object too, and the next execution of the load model returns that object. -/
+
+structure Shared (P : Type) where
+  run : Running P
+  cache : Option (Store P)        -- the containers of the cached detector object
+  aliased : Bool                  -- the running detector's containers *are* the cached objects
+
+def runStepShared {P} (w : Shared P) : Step P → Except String (Shared P)
+  | .write k v =>
+    let upd : Store P → Store P := fun s q => if q = k then v else s q
+    .ok { w with run := { w.run with store := upd w.run.store },
+                 cache := if w.aliased then w.cache.map upd else w.cache }
+  | .load ty shape file =>
+    if ty ≠ w.run.ty then .error "TypeError"
+    else if shape ≠ w.run.shape then .error "ValueError"
+    else match w.cache with
+      | some c => .ok { w with run := { w.run with store := c }, aliased := true }
+      | none => .ok { run := { w.run with store := file }, cache := some file, aliased := true }
+
+def runStepsShared {P} : Shared P → List (Step P) → Except String (Shared P)
+  | w, [] => .ok w
+  | w, s :: ss =>
+    match runStepShared w s with
+    | .error e => .error e
+    | .ok w' => runStepsShared w' ss
+
 end PyxelModel.C18
